@@ -58,10 +58,14 @@ def make_markets(udata, sdata):
     return um, sm
 
 
-def ref_twap(series, ts, window=7) -> Fraction:
-    """Geometric mean of the trailing `window` rows ending at ts (high precision)."""
-    loc = series.index.get_loc(ts)
-    vals = list(series.iloc[max(0, loc - window + 1): loc + 1])
+def ref_twap(series, ts, window_minutes=7) -> Fraction:
+    """Geometric mean of the rows whose timestamp lies in the trailing seven-MINUTE window ending at ts (high precision).
+    Defined by time, not by row count: on bars coarser than a minute the window holds fewer rows."""
+    import pandas as pd
+
+    ts = pd.Timestamp(ts)
+    lo = ts - pd.Timedelta(minutes=window_minutes)
+    vals = [v for t, v in series.items() if lo < t <= ts]
     with localcontext() as c:
         c.prec = 60
         acc = Decimal(0)
